@@ -24,7 +24,7 @@ structure Stat where
 inductive StatRes where
   /-- `os.IsNotExist(err)` -/
   | notExist
-  /-- `err != nil` but not a not-exist error (EACCES on a directory, ELOOP, EIO, ...): `info == nil` -/
+  /-- `err != nil` but not a not-exist error (EACCES on a directory, ELOOP / ENOTDIR after the file was swapped, EIO, ...) -/
   | otherErr
   | ok (s : Stat)
   deriving Repr, DecidableEq, Inhabited
@@ -41,14 +41,14 @@ abbrev PermOut := Res (Except String Unit)
 
 /-- `util.CheckFilePermissionsForExecution(filePath)`.
     `.ok (.ok ())` ⇔ Go returns `(true, nil)`; `.ok (.error msg)` ⇔ `(false, errors.New(msg))`;
-    `.panic "nil"` ⇔ `info.Sys()` on the nil `info` left by a non-not-exist stat error. -/
+    (before fix fc39d65 a non-not-exist stat error left `info == nil` and `info.Sys()` panicked). -/
 def checkPerm (ev : EvalRes) (st : StatRes) : PermOut :=
   match ev with
   | .err => .ok (.error "evalsymlinks")                       -- if err != nil { return false, err }
   | .resolved =>
     match st with
     | .notExist => .ok (.error "file not found")               -- if os.IsNotExist(err)
-    | .otherErr => .panic "nil"                                -- info.Sys() with info == nil
+    | .otherErr => .ok (.error "stat")                         -- if err != nil { return false, err }  (fix fc39d65)
     | .ok s =>
       if s.uid ≠ 0 then .ok (.error "owner is not root")
       else if s.gid ≠ 0 ∧ s.mode &&& 0o020 ≠ 0 then
